@@ -119,6 +119,21 @@ def enclosing_fn(spans, pos):
     return best[2] if best else "<top>"
 
 
+SORT_CALL = re.compile(r"\.\s*(sort|sort_by|sort_by_key|sort_unstable|sort_unstable_by|sort_unstable_by_key|sorted|sorted_by|sorted_by_key|sorted_unstable)\s*\(")
+
+
+def sorted_after(m, spans, pos):
+    """is there a sort call between the iteration and the end of the enclosing fn?  (recorded in the row, so
+    that dropping the sort changes the inventory)"""
+    best = None
+    for s, e, n in spans:
+        if s <= pos <= e and (best is None or s >= best[0]):
+            best = (s, e, n)
+    if best is None:
+        return False
+    return bool(SORT_CALL.search(m, pos, best[1]))
+
+
 def hash_fields(all_masked):
     """struct field names (any file) whose declared type mentions HashMap/HashSet"""
     names = set()
@@ -170,7 +185,8 @@ def extract():
         for mm in re.finditer(r"\b(lazy_static|thread_local)\s*!", m):
             rows.append((rel, "lazy" if mm.group(1) == "lazy_static" else "thread_local", enclosing_fn(spans, mm.start())))
         for mm in re.finditer(r"\benv::(var|vars|var_os|args|current_dir|temp_dir|set_var)\b", m):
-            rows.append((rel, "env", "%s:%s" % (enclosing_fn(spans, mm.start()), mm.group(1))))
+            lit = re.match(r'\s*\(\s*"([^"]*)"', srcs[rel][mm.end():mm.end() + 80])
+            rows.append((rel, "env", "%s:%s%s" % (enclosing_fn(spans, mm.start()), mm.group(1), "(%s)" % lit.group(1) if lit else "")))
         for mm in re.finditer(r"\b(SystemTime|Instant|Utc|Local)::now\b", m):
             rows.append((rel, "clock", "%s:%s" % (enclosing_fn(spans, mm.start()), mm.group(1))))
         for mm in re.finditer(r"\b(rand::|thread_rng|RandomState::new|getrandom)", m):
@@ -182,9 +198,9 @@ def extract():
         for mm in re.finditer(r"(?<![A-Za-z0-9_])((?:[a-z_][a-z0-9_]*\s*\.\s*)*)(%s)\s*\.\s*(%s)\s*\(" % (alt, ITER_METHODS), m):
             # a local that merely shares its name with a hash-typed field of another struct, in a file where
             # it is declared with a non-hash type, is still reported: the allow-list decides
-            rows.append((rel, "hash-iter", "%s:%s.%s" % (enclosing_fn(spans, mm.start()), mm.group(2), mm.group(3))))
+            rows.append((rel, "hash-iter", "%s:%s.%s%s" % (enclosing_fn(spans, mm.start()), mm.group(2), mm.group(3), " +sorted" if sorted_after(m, spans, mm.start()) else "")))
         for mm in re.finditer(r"\bfor\s+[^;{]*?\bin\s+&?\s*(?:mut\s+)?((?:[a-z_][a-z0-9_]*\s*\.\s*)*)(%s)\s*\{" % alt, m):
-            rows.append((rel, "hash-iter", "%s:%s.for" % (enclosing_fn(spans, mm.start()), mm.group(2))))
+            rows.append((rel, "hash-iter", "%s:%s.for%s" % (enclosing_fn(spans, mm.start()), mm.group(2), " +sorted" if sorted_after(m, spans, mm.start()) else "")))
     rows = sorted(set(rows))
     return {"rows": rows, "files": len(masked), "hash_fields": sorted(fields)}
 
